@@ -268,14 +268,15 @@ def _oracle_window(case, h):
 
 
 def _expect_valid_window(case):
-    """does the property apply (window finite with sum w^2 > 0)?  Stated from the SHAPE alone, not from window values:
-    a symmetric Hann window of 2 samples is [0, 0]; the Welch window divides by rmax = (m-1-m//2) dx, 0 for m < 3.
-    For the automatic choice both must be fine (which of the two is picked is not a property fact)."""
+    """MUST make_window give a usable window (finite, sum w^2 > 0) for this case?  Stated from the SHAPE alone, never from
+    window values: a taper on an axis of 1 or 2 samples may legitimately vanish (symmetric Hann of 2 samples is [0, 0], a
+    periodic Hann of 1 sample is [0]) and the Welch window divides by rmax = (m-1-m//2) dx, 0 for m < 3 — there the property
+    (which needs sum w^2 != 0) is applied only if the window that comes back is usable.  With >= 3 samples per axis every
+    named / automatic window must be usable; a user array always is."""
     m, n = case['shape']
     fam = _window_family(case['window'])
-    hann_ok = 2 not in (m, n)
-    welch_ok = m >= 3
-    return {'auto': hann_ok and welch_ok, 'hann': hann_ok, 'welch': welch_ok, 'array': True}[fam]
+    taper_ok = min(m, n) >= 3
+    return {'auto': taper_ok, 'hann': taper_ok, 'welch': taper_ok, 'array': True}[fam]
 
 
 def _valid_window(w, shape):
@@ -516,6 +517,9 @@ def pred_band(case):
         h, w, ux, uy, p, r, groups, cuts = _band_setup(case)
     except Exception as ex:
         return [('psd', f'psd raised {type(ex).__name__}: {ex}')]
+    if not _valid_window(w, (m, n)):
+        # no usable window (sum w^2 = 0 / NaN): the PSD is 0/0 and the property does not apply — unless a usable window was due
+        return [] if not _expect_valid_window(case) else [('window', f'no usable window for a {m}x{n} map, window={case["window"]!r}')]
     a, b, c, on = _pick_edges(case, groups, cuts)
     rmax = float(r.max())
     r0, p0 = r.copy(), p.copy()
@@ -1092,9 +1096,9 @@ def _band_cases(ctx):
     cases = []
     def win(k, m, n):
         w = ['hann', 'user', 'ones', None][k % 4]
-        # np.hanning(2) = [0, 0]: a Hann window (named or automatic) on an axis of 2 samples has sum w^2 = 0,
-        # which is outside the property's scope (the PSD is 0/0 there)
-        return 'user' if (w in ('hann', None) and 2 in (m, n)) else w
+        # a taper on an axis of 1 or 2 samples may vanish (np.hanning(2) = [0, 0]): sum w^2 = 0 is outside the property's
+        # scope (the PSD is 0/0 there), so these shapes get a user window
+        return 'user' if (w in ('hann', None) and min(m, n) < 3) else w
     for m, n in itertools.product(range(1, S + 1), repeat=2):
         for cfg in CONFIGS:
             cases.append({'kind': 'band', 'shape': [m, n], 'dx': _logdx(rng), 'seed': _seed(rng),
@@ -1310,6 +1314,8 @@ def _correspondence(ctx):
         try:
             h, w, ux, uy, p, r, groups, cuts = _band_setup(case)
         except Exception:
+            continue
+        if not _valid_window(w, (m, n)):
             continue
         a, b, c, on = _pick_edges(case, groups, cuts)
         bands = [(0.0, float(r.max())), (a, c), (b, c)]
